@@ -59,7 +59,9 @@ func rangeLoop(lp *Loop) (ranged ssa.Value, incr ssa.Value, body *ssa.BasicBlock
 }
 
 // countedLoop recognises the hand-written form `for i := 0; i < len(s); i++ { ... s[i] ... }`:
-//   header: i = phi [0, i+1]; cond = i < len(s); if cond goto body else done
+//
+//	header: i = phi [0, i+1]; cond = i < len(s); if cond goto body else done
+//
 // with s defined outside the loop and i changed by nothing but the increment (it is an SSA phi with exactly these
 // two sources). The index of the step is i itself.
 func countedLoop(lp *Loop, cmp *ssa.BinOp, phi *ssa.Phi) (ssa.Value, ssa.Value, *ssa.BasicBlock) {
@@ -120,7 +122,7 @@ func (ex *Exec) onEdge(st *State, fr *Frame, from, to *ssa.BasicBlock) {
 				idx := ex.asTerm(ex.eval(fr, incr))
 				p := &PtrV{Nil: TFalse, Obj: sv.Obj, Path: append(append([]PathEl(nil), sv.Path...), PathEl{Idx: Add(sv.Off, idx)})}
 				el := ex.load(st, p, sv.Elem)
-				ex.event(st, &Event{Callee: "range.next", Args: []Value{sv, idx}, Results: []Value{el}, Instr: from.Instrs[len(from.Instrs)-1], Fn: fr.Fn, Kind: "rangenext"})
+				ex.event(st, &Event{Callee: fmt.Sprintf("range.next#%d", baselineLoopOrdinal(fr.Fn, lp.Ordinal)), Args: []Value{sv, idx}, Results: []Value{el}, Instr: from.Instrs[len(from.Instrs)-1], Fn: fr.Fn, Kind: "rangenext"})
 			}
 		}
 	}
